@@ -211,9 +211,9 @@ def relabel(recs, kind, rng):
         # monotone map: sorted ids -> sorted new ids
         srt = sorted(chains)
         u = rng.random()
-        if u < 0.25:
+        if u < 0.25 and len(srt) <= 52:
             # identifiers that differ only in case
-            letters = rng.sample("ABCDEFGH", (len(srt) + 1) // 2)
+            letters = rng.sample("ABCDEFGH" if len(srt) <= 16 else "ABCDEFGHIJKLMNOPQRSTUVWXYZ", (len(srt) + 1) // 2)
             pool = sorted([c for l in letters for c in (l, l.lower())][:len(srt)])
         elif u < 0.5:
             # the first chain becomes the blank identifier, 'A' is in use as well
@@ -221,7 +221,7 @@ def relabel(recs, kind, rng):
             if len(pool) < len(srt):
                 pool = sorted(rng.sample("ABCDEFGHIJKLMNOPQRSTUVWXYZ", len(srt)))
         else:
-            pool = sorted(rng.sample("ABCDEFGHIJKLMNOPQRSTUVWXYZabcdefghij0123456789", len(srt)))
+            pool = sorted(rng.sample("ABCDEFGHIJKLMNOPQRSTUVWXYZabcdefghijklmnopqrstuvwxyz0123456789", len(srt)))
         m = dict(zip(srt, pool))
         for r in recs:
             if r.raw is None:
